@@ -1061,6 +1061,73 @@ impl fmt::Display for NaiveDateTime {
         write!(f, "{} {}", self.date, self.time)
     }
 }
+/// chrono's `DurationRound` for `NaiveDateTime` (second precision; spans that divide a day, so that
+/// rounding the timestamp since 1970-01-01 00:00 is rounding the time of day). As in chrono, dates
+/// whose nanosecond timestamp does not fit an i64 (before 1677-09-21 / after 2262-04-11) are an error.
+#[derive(Clone, Copy, Debug, PartialEq, Eq)]
+pub enum RoundingError {
+    DurationExceedsTimestamp,
+    DurationExceedsLimit,
+    TimestampExceedsLimit,
+}
+
+impl fmt::Display for RoundingError {
+    fn fmt(&self, f: &mut fmt::Formatter<'_>) -> fmt::Result {
+        write!(f, "{self:?}")
+    }
+}
+
+impl std::error::Error for RoundingError {}
+
+pub trait DurationRound: Sized {
+    type Err: std::error::Error;
+    fn duration_round(self, duration: TimeDelta) -> Result<Self, Self::Err>;
+    fn duration_trunc(self, duration: TimeDelta) -> Result<Self, Self::Err>;
+}
+
+impl NaiveDateTime {
+    fn round_prepare(self, duration: TimeDelta) -> Result<(i64, SymInt), RoundingError> {
+        let span = duration.secs.as_const().unwrap_or_else(|| panic!("vrt: unsupported symbolic rounding span"));
+        if span <= 0 {
+            return Err(RoundingError::DurationExceedsLimit);
+        }
+        if DAY % span != 0 {
+            panic!("vrt: unsupported rounding span {span} s (does not divide a day)");
+        }
+        let lo = NaiveDate::from_real(rc::NaiveDate::from_ymd_opt(1677, 9, 22).unwrap());
+        let hi = NaiveDate::from_real(rc::NaiveDate::from_ymd_opt(2262, 4, 10).unwrap());
+        if self.date < lo || self.date > hi {
+            let lo2 = NaiveDate::from_real(rc::NaiveDate::from_ymd_opt(1677, 9, 21).unwrap());
+            let hi2 = NaiveDate::from_real(rc::NaiveDate::from_ymd_opt(2262, 4, 11).unwrap());
+            if self.date == lo2 || self.date == hi2 {
+                panic!("vrt: unsupported rounding on the boundary day of the i64 nanosecond range");
+            }
+            return Err(RoundingError::TimestampExceedsLimit);
+        }
+        Ok((span, self.time.secs.mod_const(span)))
+    }
+}
+
+impl DurationRound for NaiveDateTime {
+    type Err = RoundingError;
+
+    fn duration_round(self, duration: TimeDelta) -> Result<Self, RoundingError> {
+        let (span, down) = self.round_prepare(duration)?;
+        if vrt::decide(down.eq(SymInt::Const(0))) {
+            return Ok(self);
+        }
+        // nearest multiple, ties go up (chrono: `if delta_up <= delta_down { +up } else { -down }`)
+        let up = SymInt::Const(span).sub(down);
+        let delta = if vrt::decide(up.le(down)) { up } else { SymInt::Const(0).sub(down) };
+        Ok(self.shifted(delta).expect("rounding stays in range"))
+    }
+
+    fn duration_trunc(self, duration: TimeDelta) -> Result<Self, RoundingError> {
+        let (_, down) = self.round_prepare(duration)?;
+        Ok(self.shifted(SymInt::Const(0).sub(down)).expect("truncation stays in range"))
+    }
+}
+
 impl Add<TimeDelta> for NaiveDateTime {
     type Output = NaiveDateTime;
     fn add(self, d: TimeDelta) -> NaiveDateTime {
